@@ -1,53 +1,97 @@
-(* Code model: RangeKeeper and get_text_edits (mos/src/lsp/formatting.rs) over the chunk list returned by
-   dissimilar::diff.  The diff itself is an oracle: only `chunks partition old and new` is assumed, and that
-   is checked on every case at run time (hook H2 returns the raw chunks). *)
+(* Code model of mos/src/lsp/formatting.rs: RangeKeeper, get_text_edits, do_formatting and the two request handlers.
+   `dissimilar::diff` and the formatter are oracles (Section variables); the theorems assume about the diff only
+   that its chunks partition the old and the new text, which the check validates on every case (hook H2 returns the
+   raw chunks).  Text is a list of Unicode scalar values; u32 line/character counters are unbounded naturals
+   (documents below 2^32 lines / code units).  No proofs in this file. *)
 From Coq Require Import List NArith Bool Arith.
 Import ListNotations.
-From Mos Require Import model.Utf Gen.EditsConsts.
+From Mos Require Import spec.LspEdits model.Utf Gen.EditsConsts.
 
-Definition text := list N.
-Definition NL : N := 10%N.
-Definition pos := (nat * nat)%type.             (* line, character *)
+(* struct RangeKeeper { line, character } *)
+Definition RangeKeeper := pos.
+Definition rk_new : RangeKeeper := (0, 0).
 
-Section Width.
-  Variable width : N -> nat.
-  (* RangeKeeper::push, one character at a time *)
-  Definition adv1 (p : pos) (c : N) : pos := if N.eqb c NL then (S (fst p), 0) else (fst p, snd p + width c).
-  Definition adv (p : pos) (s : text) : pos := fold_left adv1 s p.
-End Width.
+(* RangeKeeper::push: every `newline_char` found starts a new line (line += 1, character = 0); what follows the last
+   one adds its width (Gen.EditsConsts.column_width: the translated `str.encode_utf16().count()`), one char at a time *)
+Definition push1 (rk : RangeKeeper) (c : N) : RangeKeeper :=
+  if N.eqb c newline_char then (S (fst rk), 0) else (fst rk, snd rk + column_width c).
+Fixpoint push (rk : RangeKeeper) (str : text) : RangeKeeper :=
+  match str with
+  | [] => rk
+  | c :: rest => push (push1 rk c) rest
+  end.
 
-Inductive chunk := Eq (t : text) | Del (t : text) | Ins (t : text).
-Record edit := mkEdit { e_start : pos; e_end : pos; e_new : text }.
+(* dissimilar::Chunk *)
+Inductive chunk := Equal (t : text) | Delete (t : text) | Insert (t : text).
+
+(* RangeKeeper::to_range + TextEdit { range, new_text } *)
+Definition to_range (rk : RangeKeeper) (str : text) (new_text : text) : edit := mkEdit rk (push rk str) new_text.
 
 Fixpoint text_eqb (a b : text) : bool :=
   match a, b with [], [] => true | x :: a', y :: b' => N.eqb x y && text_eqb a' b' | _, _ => false end.
 
-Section Gte.
-  Variable width : N -> nat.
-  Notation adv := (adv width).
-  (* get_text_edits: the `while idx < edits.len()` loop with its three-chunk lookahead *)
-  Fixpoint gte (rk : pos) (cs : list chunk) : list edit :=
-    match cs with
-    | [] => []
-    | Eq e :: rest => gte (adv rk e) rest
-    | Ins i :: rest => mkEdit rk rk i :: gte rk rest
-    | Del d :: rest =>
-        match rest with
-        | Ins i :: rest2 => mkEdit rk (adv rk d) i :: gte (adv rk d) rest2
-        | Eq e :: rest1 =>
-            match rest1 with
-            | Ins i :: rest2 =>
-                if text_eqb d i
-                then mkEdit rk (adv rk (d ++ e)) (e ++ i) :: gte (adv rk (d ++ e)) rest2
-                else mkEdit rk (adv rk d) [] :: gte (adv rk d) rest
-            | _ => mkEdit rk (adv rk d) [] :: gte (adv rk d) rest
-            end
-        | _ => mkEdit rk (adv rk d) [] :: gte (adv rk d) rest
+(* get_text_edits: the `while idx < edits.len()` loop; arms in source order *)
+Fixpoint gte (rk : RangeKeeper) (cs : list chunk) : list edit :=
+  match cs with
+  | [] => []
+  | Delete del :: rest =>
+      match rest with
+      | Equal eq :: Insert ins :: rest3 =>
+          if text_eqb del ins
+          then to_range rk (del ++ eq) (eq ++ ins) :: gte (push rk (del ++ eq)) rest3          (* idx += 3 *)
+          else to_range rk del [] :: gte (push rk del) rest                                     (* last arm *)
+      | Insert ins :: rest2 => to_range rk del ins :: gte (push rk del) rest2                   (* idx += 2 *)
+      | _ => to_range rk del [] :: gte (push rk del) rest
+      end
+  | Equal str :: rest => gte (push rk str) rest
+  | Insert str :: rest => to_range rk [] str :: gte rk rest
+  end.
+
+Definition old_of (cs : list chunk) : text :=
+  flat_map (fun c => match c with Equal t | Delete t => t | Insert _ => [] end) cs.
+Definition new_of (cs : list chunk) : text :=
+  flat_map (fun c => match c with Equal t | Insert t => t | Delete _ => [] end) cs.
+
+(* str::contains(char), str::replace("\r\n", "\n"), str::replace('\r', "\n") *)
+Definition contains (c : N) (s : text) : bool := existsb (N.eqb c) s.
+Fixpoint replace_crlf (s : text) : text :=
+  match s with
+  | [] => []
+  | x :: r =>
+      if N.eqb x cr_char then
+        match r with
+        | y :: r' => if N.eqb y newline_char then newline_char :: replace_crlf r' else x :: replace_crlf r
+        | [] => x :: replace_crlf r
         end
+      else x :: replace_crlf r
+  end.
+Definition replace_cr (s : text) : text := map (fun c => if N.eqb c cr_char then newline_char else c) s.
+
+Section Handler.
+  Variable diff : text -> text -> list chunk.            (* dissimilar::diff *)
+  Variable format : text -> text.                         (* format(path, tree, FormattingOptions::default()) of the file's source *)
+  Variable diagnostic : Type.
+
+  (* get_text_edits: a buffer containing a CR gets one whole-document replacement (Gen.EditsConsts.whole_document_on_cr
+     says whether that branch is present in the source); otherwise the chunk-wise edits *)
+  Definition get_text_edits (old_text new_text : text) : list edit :=
+    if whole_document_on_cr && contains cr_char old_text then
+      if text_eqb old_text new_text then []
+      else [to_range rk_new (replace_cr (replace_crlf old_text)) new_text]
+    else gte rk_new (diff old_text new_text).
+
+  (* do_formatting: `error` = ctx.error, `codegen` = ctx.codegen() with tree.try_get_file(path) already looked up
+     (None = no codegen context, Some None = the file is not part of the tree) *)
+  Definition do_formatting (error : list diagnostic) (codegen : option (option text)) : option (list edit) :=
+    match error with
+    | [] => option_map (fun file => match file with
+                                    | Some old_text => get_text_edits old_text (format old_text)
+                                    | None => []
+                                    end) codegen
+    | _ :: _ => None
     end.
-End Gte.
 
-Definition get_text_edits (cs : list chunk) : list edit := gte column_width (0, 0) cs.
-
-Definition old_of (cs : list chunk) : text := flat_map (fun c => match c with Eq t | Del t => t | Ins _ => [] end) cs.
-Definition new_of (cs : list chunk) : text := flat_map (fun c => match c with Eq t | Ins t => t | Del _ => [] end) cs.
+  (* the two handlers differ only in where the uri comes from; position and typed character are ignored *)
+  Definition handle_formatting := do_formatting.
+  Definition handle_on_type_formatting (position : pos) (ch : text) := do_formatting.
+End Handler.
